@@ -344,9 +344,10 @@ def h_metrics(ctx, ntrades=2, nbal=3, ratios=True, symbal=1, symstart=True, bals
     ctx.event('ratio-identities-checked')
 
 
-def h_equity(ctx, days=2, exch='futures', two_routes=False, side='long'):
-    """equity samples: concrete candles, symbolic starting balance / fee / quantity"""
-    n = 1440 * days + 7
+def h_equity(ctx, days=2, exch='futures', two_routes=False, side='long', extra_minutes=7, second_rests=False):
+    """equity samples: concrete candles, symbolic starting balance / fee / quantity.  extra_minutes=0: a session of an exact number
+    of days; second_rests: the second route keeps a resting (never filled) limit buy, so quote is reserved outside the first route"""
+    n = 1440 * days + extra_minutes
     start = ctx.real('start', 5000, 100000)
     fee = ctx.real('fee', 0, 0.005)
     q = ctx.real('q', 0.1, 5)
@@ -414,12 +415,26 @@ def h_equity(ctx, days=2, exch='futures', two_routes=False, side='long'):
         extra = None
         if two_routes:
             from .apih import passive_strategy
-            extra = [('ETH-USDT', S.make_candles([[r[0], r[1] / 2, r[2] / 2, r[3] / 2, r[4] / 2, r[5]] for r in rows]), passive_strategy(), '1m')]
+            second = passive_strategy()
+            if second_rests:
+                class R(Strategy):
+                    def should_long(self):
+                        return self.index == 5
+
+                    def go_long(self):
+                        self.buy = 2.0, 20.0  # far below the market (ETH trades around 50): rests for the whole session
+
+                    def should_cancel_entry(self):
+                        return False
+                second = R
+            extra = [('ETH-USDT', S.make_candles([[r[0], r[1] / 2, r[2] / 2, r[3] / 2, r[4] / 2, r[5]] for r in rows]), second, '1m')]
         rec = S.run_session(S.make_candles(rows), E, cfg, extra=extra)
     finally:
         bm.save_daily_portfolio_balance = orig
     db = rec.refs['app'].daily_balance
-    ctx.prove(len(db) == days + 2, 'C16:one-equity-sample-per-day-plus-initial-and-final', {'samples': len(db), 'days': days})
+    # one sample per started day (the first one is the starting balance) plus the final one
+    started_days = (n + 1439) // 1440
+    ctx.prove(len(db) == started_days + 1, 'C16:one-equity-sample-per-day-plus-initial-and-final', {'samples': len(db), 'minutes': n, 'started_days': started_days})
     ctx.prove(ctx.equal(db[0], start), 'C16:equity-series-starts-at-starting-balance')
     for (t, eq, recorded) in samples:
         ctx.prove(close_to(recorded, eq, 100000.0), 'C16:equity-sample-equals-account-equity', {'time': t})
@@ -450,6 +465,9 @@ def _jobs(tier):
         jobs.append(Job('equity_3d_futures', h_equity, {'days': 3, 'exch': 'futures'}, dict(opts)))
         jobs.append(Job('equity_2d_futures_short', h_equity, {'days': 2, 'exch': 'futures', 'side': 'short'}, dict(opts)))
         jobs.append(Job('equity_2d_spot', h_equity, {'days': 2, 'exch': 'spot'}, dict(opts)))
+    # a session of an exact number of days; a second spot route that keeps quote reserved in a resting buy
+    jobs.append(Job('equity_1d_exact', h_equity, {'days': 1, 'exch': 'futures', 'extra_minutes': 0}, dict(opts)))
+    jobs.append(Job('equity_1d_spot_two_routes_resting', h_equity, {'days': 1, 'exch': 'spot', 'two_routes': True, 'second_rests': True}, dict(opts)))
     return jobs
 
 
